@@ -2,6 +2,7 @@ package main
 
 import (
 	"fmt"
+	"go/token"
 	"go/types"
 	"reflect"
 	"sort"
@@ -440,6 +441,48 @@ func c29(r *Run) {
 		}
 		r.check(okF, "C29.R6", "describeStruct:no-other-filter", w.rel(ds.Pos()), "", "a serialised field can be left out of the description (the linear codec still encodes it)")
 		r.requireEffect(w, "C29.R6", "describeStruct:json-name", ds, "call strings.Split((reflect.StructTag).Get((reflect.Type).Field(p0, *).Tag, \"json\"), \",\")")
+		// slice/array layers are written outermost first (getReflectType peels them from the left, R2): every string
+		// concatenation that extends the accumulated prefix keeps the accumulator on the left
+		acc := map[ssa.Value]bool{}
+		eachInstr(ds, func(i ssa.Instruction) {
+			if p, ok := i.(*ssa.Phi); ok && isStringType(p.Type()) {
+				acc[p] = true
+			}
+		})
+		appended, prepended := 0, ""
+		eachInstr(ds, func(i ssa.Instruction) {
+			b, ok := i.(*ssa.BinOp)
+			if !ok || b.Op != token.ADD || !isStringType(b.Type()) {
+				return
+			}
+			switch {
+			case acc[b.X]:
+				appended++
+			case acc[b.Y]:
+				prepended = r.at(w, b)
+			}
+		})
+		r.check(appended >= 3 && prepended == "", "C29.R6", "describeStruct:layers-outermost-first", w.rel(ds.Pos()), fmt.Sprintf("%d concatenations extend the prefix on its right", appended),
+			"a slice/array layer is written to the left of the layers already seen ("+prepended+"): mixed nestings such as [][32]uint8 are described inside out and rebuilt as a different type")
+	}
+	// R3: types built for one ABI are never reused for another: the memo given to getReflectType by an entry
+	// point is a map made by that call
+	if grt != nil {
+		n := 0
+		for _, fn := range w.FnsInPkg(pkgDyn) {
+			if fn == grt {
+				continue
+			}
+			for _, c := range callsNamed(fn, fnName(grt)) {
+				n++
+				a := callArgs(c)
+				_, fresh := strip(a[len(a)-1]).(*ssa.MakeMap)
+				r.check(fresh, "C29.R3", short(fnName(fn))+":type-memo-made-per-call", r.at(w, c), "", "the memo of built types handed to getReflectType is not a map made by this call ("+term(a[len(a)-1])+"): struct layouts built for one ABI are reused for a same-named type of another ABI")
+			}
+		}
+		if n < 2 {
+			r.missing("C29.R3", "getReflectType:entry-calls", fmt.Sprintf("only %d calls of getReflectType from entry points found", n))
+		}
 	}
 }
 
